@@ -474,13 +474,20 @@ def _analyze_simple_command(
         return Decision("allow", base)
 
     # 4. Version/help checks
-    if _is_version_or_help(tokens):
+    # A launcher that hands its arguments to another program ("sh -c 'rm x' -h",
+    # "env -S 'rm x' -h") or an interpreter given a script ("bash x.sh -h") is not asking
+    # for help: a trailing -h belongs to the inner program, so the handler decides.
+    handler = get_handler(base)
+    result = handler.classify(HandlerContext(tokens)) if handler else None
+    runs_inner = result is not None and (
+        result.action == "delegate"
+        or (len(tokens) > 2 and getattr(handler, "RUNS_SCRIPTS", False))
+    )
+    if _is_version_or_help(tokens) and not runs_inner:
         return Decision("allow", f"{base} --help")
 
     # 5. CLI-specific handlers
-    handler = get_handler(base)
     if handler:
-        result = handler.classify(HandlerContext(tokens))
         desc = result.description or get_description(tokens, base)
         # Check handler-provided redirect targets against config (skip in remote mode)
         if result.redirect_targets and not remote:
